@@ -398,7 +398,7 @@ pub fn sets(ctx: &Ctx) -> Vec<CaseSet> {
     let (tb1, cfg1) = (tb.clone(), cfg.clone());
     out.push(CaseSet::new(
         "locations",
-        ctx.size(300_000, 4_800_000),
+        ctx.size(300_000, 15_000_000),
         Box::new(move |rep, rng, _| {
             let (input, q, tag) = crate::props::c06::gen_input(rng, &tb1, &cfg1, 400);
             // make many inputs multi-line
@@ -462,7 +462,7 @@ pub fn sets(ctx: &Ctx) -> Vec<CaseSet> {
     let (tb2, cfg2) = (tb.clone(), cfg.clone());
     out.push(CaseSet::new(
         "truncation-generated",
-        ctx.size(30_000, 1_000_000),
+        ctx.size(30_000, 3_000_000),
         Box::new(move |rep, rng, _| {
             let v = gen::gen_value(rng, &cfg2, &tb2, 1);
             match rng.below(4) {
